@@ -10,7 +10,21 @@ import (
 	"time"
 )
 
-func init() { vcScenarios["C04"] = vcScenC04 }
+func init() {
+	vcScenarios["C04"] = vcScenC04
+	vcDirected["C04"] = []vcScenario{
+		// reset after complete delivery, reader paused with part of the stream still buffered
+		func(t *vcTrial) { vc04Force = &vc04Forced{Total: 100}; defer func() { vc04Force = nil }(); vcScenC04(t) },
+		func(t *vcTrial) { vc04Force = &vc04Forced{Total: 300 << 10}; defer func() { vc04Force = nil }(); vcScenC04(t) },
+		func(t *vcTrial) { vc04Force = &vc04Forced{Total: 20 << 10}; defer func() { vc04Force = nil }(); vcScenC04(t) },
+	}
+}
+
+// vc04Forced pins the abort-after-delivery variant for the directed trials (trials of one process
+// run one after the other).
+type vc04Forced struct{ Total int }
+
+var vc04Force *vc04Forced
 
 type vc04Side struct {
 	rd      *vcStreamReader
@@ -52,6 +66,9 @@ func vcScenC04(t *vcTrial) {
 	}
 	if network == "tcp" && (snd == 4<<10 || rcv == 4<<10) && total > 256<<10 {
 		total = r.rng(64<<10, 256<<10) // 4KB TCP buffers crawl (tiny windows + delayed ACKs)
+	}
+	if vc04Force != nil {
+		network, mode, total = "tcp", "s2c-reader", vc04Force.Total
 	}
 	stallPct := []int{0, 0, 5, 30}[r.intn(4)]
 	jitter := r.chance(50)
@@ -210,6 +227,14 @@ func vcScenC04(t *vcTrial) {
 		}
 		sender = &vcStreamWriter{C: rec.Conn, Seed: streamSeed, R: vfNewRng(r.next())}
 		sdone := make(chan struct{})
+		// abort variant: the reader pauses somewhere, the sender flushes everything, waits until the
+		// receiving netpoll has taken every byte from the kernel, and then resets the connection
+		// (SO_LINGER 0) instead of closing it gracefully. What netpoll has read stays readable.
+		abort := network == "tcp" && (r.chance(50) || vc04Force != nil)
+		pauseAt := uint64(r.intn(total))
+		paused := make(chan struct{})
+		aborted := make(chan struct{})
+		t.P("abort_after_delivery", abort)
 		go func() {
 			defer close(sdone)
 			for sender.Pos < uint64(total) && sender.Err == nil {
@@ -217,11 +242,40 @@ func vcScenC04(t *vcTrial) {
 			}
 			sender.Flush()
 			vc04StopReadFaults()
+			if abort {
+				defer close(aborted)
+				if sender.Err == nil {
+					select {
+					case <-paused:
+						in := vcInner(cli)
+						for dl := time.Now().Add(10 * time.Second); time.Now().Before(dl) && uint64(in.inputBuffer.Len())+rd.Pos < uint64(total); {
+							time.Sleep(200 * time.Microsecond)
+						}
+						if uint64(in.inputBuffer.Len())+rd.Pos == uint64(total) {
+							syscall.SetsockoptLinger(rec.FD, syscall.SOL_SOCKET, syscall.SO_LINGER, &syscall.Linger{Onoff: 1, Linger: 0})
+							t.Stat("aborted_after_delivery", 1)
+							amark := vcTraceMark()
+							rec.Conn.Close()
+							vcWaitPoint(amark, vpOnHupAfterCloseBy, vcConnID(cli), 2*time.Second)
+							return
+						}
+					case <-time.After(20 * time.Second):
+					}
+				}
+			}
 			rec.Conn.Close()
 		}()
 		rr := vfNewRng(r.next())
 		rd = &vcStreamReader{Rd: cli.Reader(), IO: cli.(io.Reader), Seed: streamSeed, Total: uint64(total), R: rr}
 		for rd.Pos < uint64(total) {
+			if abort && rd.Pos >= pauseAt {
+				select {
+				case <-paused:
+				default:
+					close(paused)
+					<-aborted
+				}
+			}
 			if rr.chance(stallPct) {
 				time.Sleep(time.Duration(rr.rng(0, 3000)) * time.Microsecond)
 			}
@@ -249,7 +303,7 @@ func vcScenC04(t *vcTrial) {
 			p, err := cli.Reader().Next(1)
 			if err == nil {
 				t.Violate("C04", "extra_bytes", "client reader: a byte (0x%02x) arrived after the %d bytes the sender flushed", p[0], total)
-			} else if !vcEOFish(err) {
+			} else if !vcEOFish(err) && !abort {
 				t.Violate("C04", "eof_class", "client reader: after the complete stream the read error is %v, want ErrEOF (peer closed, no local close)", err)
 			}
 		}
